@@ -218,6 +218,9 @@ func Templates() []Template {
 		T("compare-trees-tips", "", "compare", "trees", "-i", "tree.nw", "-c", "boot.nw", "-l").threads().records(),
 		T("compare-trees-weighted", "", "compare", "trees", "-i", "tree.nw", "-c", "boot.nw", "--weighted").threads().records(),
 		T("compare-trees-binary", "", "compare", "trees", "-i", "tree.nw", "-c", "boot.nw", "--binary").threads().records(),
+		// --rf prints one number per tree without a tree identifier: the lines cannot be re-ordered
+		// by the reader, so they must come in file order whatever the number of threads
+		T("compare-trees-rf", "", "compare", "trees", "-i", "tree.nw", "-c", "boot.nw", "--rf").threads(),
 		T("compute-bipartitiontree", "", "compute", "bipartitiontree", "-f", "tips.txt", "-i", "tree.nw"),
 		T("compute-consensus", "trees.nw", "compute", "consensus"),
 		T("compute-consensus-f", "boot.nw", "compute", "consensus", "-f", "0.75"),
